@@ -834,6 +834,22 @@ func CheckC19Tree(c *Ctx, entry, input string) {
 			continue
 		}
 		infos := astx.Nodes(root)
+		// traversal enumerates exactly the node-typed fields in declaration order (details and paths are C17's job)
+		var seq []ast.Node
+		if pv, _ := callSUT(func() { ast.Inspect(root, func(n ast.Node) bool { seq = append(seq, n); return true }) }); pv == nil {
+			k := 0
+			for k < len(seq) && k < len(infos) && sameNode(seq[k], infos[k].Node) {
+				k++
+			}
+			if k < len(infos) || len(seq) != len(infos) {
+				where := "<end>"
+				if k < len(infos) {
+					where = infos[k].Slot.Parent + "." + infos[k].Slot.Field
+				}
+				c.Violate("c19:traversal:"+where, entry, input, fmt.Sprintf("traversal visits %d nodes, the node-typed fields reach %d; first difference at visit #%d (%s)", len(seq), len(infos), k, where))
+			}
+			c.Count("traversals_compared", 1)
+		}
 		for _, in := range infos {
 			if in.TypedNil {
 				continue
